@@ -7,6 +7,7 @@ insertion-order independence (same call on a re-shuffled construction of the sam
 from __future__ import annotations
 
 import itertools as itt
+import json
 import random
 
 from .. import common as C
@@ -59,7 +60,7 @@ ASSUMPTIONS = [
     "clause 'the receiver is never modified' is a Python-runtime clause (R): decided by comparing nodes()/edges() of the receiver before and after every call, not by a theorem (the model is pure)",
     "clause 'returns a NEW graph' is a Python-runtime clause (R) as well: after every graph-valued operation (subgraph, remove_*, intervene, moralize, disorient; copy() in the eq_* cases) the harness checks that the result shares no component graph object with the receiver, then CHANGES the result (a fresh node, a directed and a bidirected edge to an old node, one edge of each kind removed) and requires the receiver's nodes()/edges() unchanged, then changes the receiver the same way and requires the result unchanged; a result that refuses changes (a frozen view) is judged by the second half only",
     "node identity: the model works on integers; the real graph is built through a per-case injective table int -> node whose nodes are plain Variables (two name tables) or CounterfactualVariables (same base name in several worlds). No operation of the property looks at names or sorts nodes, so the integer model is valid for every such table; that graph.py does not is decided by correspondence + oracle on the relabelled graph (a result node outside the table decodes to an atom no definition expects). intervene and to_latent_variable_dag are not defined on counterfactual graphs and are left out there",
-    "intervene with interventions on variables that are not nodes: definition used by the oracle = every node gets the subscripts, exactly the directed edges into / bidirected edges at an intervened NODE are dropped. The empty set (no CounterfactualVariable without subscripts exists: ValueError unless the graph is empty) and +X together with -X of one variable (a contradictory world, nothing says what the graph should be) are compared with the model only",
+    "intervene with interventions on variables that are not nodes: definition used by the oracle = every node gets the subscripts, exactly the directed edges into / bidirected edges at an intervened NODE are dropped. The empty set (no CounterfactualVariable without subscripts exists: ValueError unless the graph is empty) is compared with the model only; for +X together with -X of one variable the edges are judged (X is intervened whatever the sign), the subscripts of the nodes of such a contradictory world are not",
     "topological_sort / pre with the default order: the theorems say the result is a linear extension (resp. its prefix before the first member of S) for every insertion order, and that success does not depend on the insertion order; equality of the exact order with networkx is correspondence only",
     "intervene: node relabelling is modelled as a map f (injective for the edge characterisations); the harness decodes CounterfactualVariable nodes back to base names and checks their subscripts separately",
     "get_nodes_in_directed_paths: the definition proved and checked is 'nodes on simple directed paths with at least one edge from S to T' (nodesInDirectedPaths_spec, both implementations, after fix 2ae6e11). Arguments that are not nodes are outside the property's quantifier; what the code does with them (ignored on acyclic graphs, NodeNotFound on cyclic ones when both sets are non-empty) is stated by nodesInDirectedPaths_dag_spec / nodesInDirectedPaths_cyclic_error and compared by correspondence only",
@@ -97,6 +98,31 @@ CORPUS = [
     # seeded change C14a (a child already in the blanket was skipped): N=0, C1=1, C2=2, W=3
     {"op": "get_markov_blanket", "g": {"nodes": [], "di": [[0, 1], [0, 2], [2, 1], [3, 2]], "bi": []}, "S": [0]},
     {"op": "get_markov_blanket", "g": {"nodes": [4, 6, 5, 3], "di": [[6, 3], [3, 4], [5, 3]], "bi": []}, "S": [6, 4]},
+    # G14-1: two worlds of one base name (A01 @ -A00, A01 @ +A00) and the plain A01 beside them; an edge-less counterfactual node
+    {"op": "subgraph", "g": {"nodes": [2], "di": [[0, 1], [1, 4]], "bi": [[1, 3]]}, "S": [1, 3, 4],
+     "cf": {"1": {"iv": [[0, False]]}, "3": {"iv": [[0, True]], "base": 1}, "4": {"iv": [], "base": 1}}},
+    {"op": "remove_nodes_from", "g": {"nodes": [1, 2], "di": [], "bi": []}, "S": [2], "cf": {"1": {"iv": [[0, False]]}}},
+    {"op": "ancestors_inclusive", "g": {"nodes": [], "di": [[0, 1], [1, 2]], "bi": [[1, 3]]}, "S": [2],
+     "cf": {"1": {"iv": [[0, False]]}, "2": {"iv": [[0, False]]}, "3": {"iv": [[0, True]], "base": 1}}},
+    {"op": "districts", "g": {"nodes": [4], "di": [[0, 1]], "bi": [[1, 3], [3, 2]]},
+     "cf": {"1": {"iv": [[0, False]]}, "3": {"iv": [[0, True]], "base": 1}, "2": {"iv": [[90, True]]}}},
+    # G14-2: a result that shares structure with the receiver is only seen when one of the two is changed afterwards
+    {"op": "moralize", "g": {"nodes": [3], "di": [[0, 2], [1, 2]], "bi": [[0, 3]]}},
+    {"op": "remove_out_edges", "g": {"nodes": [], "di": [[0, 1], [1, 2]], "bi": [[0, 2]]}, "S": [1]},
+    # G14-3: a node named twice in the collection
+    {"op": "get_markov_pillow", "g": {"nodes": [], "di": [[0, 1], [2, 1], [3, 2]], "bi": []}, "S": [1, 1, 2], "forms": {"S": "list"}},
+    {"op": "subgraph", "g": {"nodes": [3], "di": [[0, 1], [1, 2]], "bi": [[0, 2]]}, "S": [0, 2, 0], "forms": {"S": "tuple"}},
+    {"op": "nodes_in_directed_paths", "g": {"nodes": [], "di": [[0, 1], [1, 2]], "bi": []}, "S": [0, 0], "T": [2, 2],
+     "forms": {"S": "iterator", "T": "list"}},
+    # G14-4: interventions on variables that are not nodes; both signs of one variable (correspondence only)
+    {"op": "intervene", "g": {"nodes": [2], "di": [[0, 1]], "bi": [[0, 1]]}, "S": [90], "stars": [False]},
+    {"op": "intervene", "g": {"nodes": [2], "di": [[0, 1]], "bi": [[0, 1]]}, "S": [1, 90], "stars": [True, False]},
+    {"op": "intervene", "g": {"nodes": [], "di": [[0, 1], [1, 2]], "bi": [[0, 2]]}, "S": [1, 1], "stars": [True, False]},
+    # G14-5 / G14-6: a chain of depth 7 in shuffled labels; a bidirected self-loop
+    {"op": "ancestors_inclusive", "g": {"nodes": [], "di": [[5, 2], [3, 6], [0, 4], [2, 7], [4, 3], [7, 1], [6, 5]], "bi": []}, "S": [1]},
+    {"op": "subgraph", "g": {"nodes": [], "di": [[0, 1], [1, 0]], "bi": [[1, 1], [0, 2]]}, "S": [1, 2]},
+    # names of mixed length / case (M, Ma <-> zz, X; M0 edge-less)
+    {"op": "remove_in_edges", "g": {"nodes": [13], "di": [[11, 12], [12, 14]], "bi": [[12, 30]]}, "S": [12], "names": "mixed"},
 ]
 
 
@@ -508,7 +534,7 @@ def _random_case(rng):
             c["S"] = c["S"] + [rng.choice(FOREIGN)]
             rng.shuffle(c["S"])
         c["stars"] = [rng.random() < 0.5 for _ in c["S"]]
-        if c["S"] and rng.random() < 0.1:      # +X and -X of one variable
+        if c["S"] and rng.random() < 0.2:      # +X and -X of one variable
             k = rng.randrange(len(c["S"]))
             c["S"].append(c["S"][k])
             c["stars"].append(not c["stars"][k])
@@ -704,8 +730,17 @@ def _forms(case):
 DUP_FORMS = ("list", "tuple") + F.ONE_SHOT
 
 
+def _assign(c):
+    """derive the forms of a case; forms a corpus witness was written with (and that are legal) are kept"""
+    rec = dict(c.get("forms") or {})
+    sl = _slots(c)
+    F.assign(c, sl)
+    c["forms"].update({k: v for k, v in rec.items() if k in sl and v in sl[k]})
+    return c
+
+
 def cases(rng: random.Random, tier: str):
-    out = [F.assign(c, _slots(c)) for c in _cases(rng, tier)]
+    out = [_assign(c) for c in _cases(rng, tier)]
     # G14-3: a node collection may name an element twice.  Decided AFTER the forms are fixed (they stay as recorded), for
     # the forms that hand a repetition over (list / tuple / generator / iterator / map)
     rng2 = random.Random(rng.randrange(1 << 30))
@@ -722,7 +757,7 @@ def cases(rng: random.Random, tier: str):
 
 
 def _cases(rng: random.Random, tier: str):
-    out = [dict(c, shape="corpus") for c in CORPUS]
+    out = [dict(json.loads(json.dumps(c)), shape="corpus") for c in CORPUS]
     n_struct, n_rand = {"thorough": (100000, 200000), "escalated": (QUICK_STRUCTURED, QUICK_RANDOM // 4)}.get(
         tier, (QUICK_STRUCTURED, QUICK_RANDOM))
     n_cf, n_names = {"thorough": (30000, 10000)}.get(tier, (QUICK_CF, QUICK_NAMES))
@@ -1107,9 +1142,10 @@ def _expected(case):
         return ["ok", C.as_set([str(v) for v in _closure({case["v"]}, nb)])]
     if op == "intervene":
         # `variables: set[Intervention]` need not be nodes: a foreign intervention relabels every node and removes nothing.
-        # No opinion for the empty set (no counterfactual variable without subscripts exists) and for +X together with -X
-        # (a contradictory world: what the result should be is not stated anywhere; correspondence only)
-        if not S or _both_signs(case):
+        # No opinion for the empty set (no counterfactual variable without subscripts exists).  +X together with -X: X is
+        # an intervened node whatever the sign ("with edges into the intervened nodes removed"), so the edges are judged;
+        # which subscripts the nodes of such a contradictory world carry is left to the correspondence
+        if not S:
             return None
     elif not S <= V:
         return None  # the property quantifies over node subsets of the graph
